@@ -457,3 +457,11 @@ def instances(tier):
         out.append(integration_pa_instance(2, 1, 2))
         out.append(integration_pa_instance(3, 1, 1))
     return out
+
+
+_instances_before_simplex = instances
+
+
+def instances(tier):       # noqa: F811
+    from .common import simplex_lemma_instances
+    return _instances_before_simplex(tier) + simplex_lemma_instances('C14')
